@@ -268,12 +268,12 @@ def shards(tier):
                 out.append(dict(name='c%d_o%d%d' % (ctor, o1, o2), module='harness.c14', fn='prog', consts=c,
                                 budget_s=60 if q else 600))
     k2 = 4 if q else 5
-    for o1 in (0, 1, 3, 4, 5):
+    for o1 in ((1, 3, 4, 5) if q else (0, 1, 3, 4, 5)):
         for o2 in range(N2):
             c = dict(k=k2, npool=3, o1=o1, o2=o2)
             for j in range(k2 + 1, 6):
                 c.update({'o%d' % j: 0, 't%d' % j: 0, 'a%d' % j: 0})
-            out.append(dict(name='two_o%d%d' % (o1, o2), module='harness.c14', fn='two', consts=c, budget_s=40 if q else 600))
+            out.append(dict(name='two_o%d%d' % (o1, o2), module='harness.c14', fn='two', consts=c, budget_s=25 if q else 600))
     return out
 
 
